@@ -745,3 +745,27 @@ func Quiesce() {
 	})
 	t.hash = mix(t.hash, e.stateKey(nil))
 }
+
+// Settle blocks the calling thread until no other thread can run at the current
+// virtual time (pending timers are left alone, unlike Quiesce).
+func Settle() {
+	e := E
+	if e == nil {
+		return
+	}
+	t := e.cur
+	Point("settle", -1, func() bool {
+		if t.inQuiesce {
+			return false
+		}
+		t.inQuiesce = true
+		defer func() { t.inQuiesce = false }()
+		for _, o := range e.threads {
+			if o != t && o.isEnabled() {
+				return false
+			}
+		}
+		return true
+	})
+	t.hash = mix(t.hash, e.stateKey(nil))
+}
